@@ -418,13 +418,16 @@ def _apply_sub(sub, text, fname):
     optional = sub.startswith('?')
     if optional:
         sub = sub[1:]
-    m = re.match(r'\s*"((?:[^"\\]|\\.)*)"\s*=>\s*"((?:[^"\\]|\\.)*)"\s*(?:x(\d+))?\s*(?:#(\d+))?\s*$', sub)
+    m = re.match(r'\s*"((?:[^"\\]|\\.)*)"\s*=>\s*"((?:[^"\\]|\\.)*)"\s*(?:x(\d+|\*))?\s*(?:#(\d+))?\s*$', sub)
     if not m:
         raise Undecided('template error: bad //@sub %s' % sub)
     old = bytes(m.group(1), 'utf-8').decode('unicode_escape')
     new = bytes(m.group(2), 'utf-8').decode('unicode_escape')
-    want = int(m.group(3) or 1)
     cnt = text.count(old)
+    if m.group(3) == '*':
+        # `x*`: a pure path / constructor resolution applied wherever it occurs (any count, also none)
+        return text.replace(old, new), cnt
+    want = int(m.group(3) or 1)
     if optional and cnt == 0:
         return text, 0      # a pure path-resolution substitution: nothing to resolve in this body
     if cnt != want:
